@@ -983,10 +983,80 @@ def gen_C19(rng, tier, dist):
     return out
 
 
+def gen_C16(rng, tier, dist):
+    out = []
+    K = h264_key(random.Random(3), extra=False)
+    D = SC4 + bytes([0x41, 0x9A, 0x01])
+    A = adts(random.Random(4), payload=bytes([1, 2, 3]))
+    T = 2 ** 32 / 90000.0          # 47721.858...
+    def near(x):
+        return [x - 2 / 90000, x - 1 / 90000, x, x + 1 / 90000, x + 2 / 90000]
+    # total duration around 2^32 ticks (two+ frames), both tracks, both layouts
+    for fast in (0, 1):
+        for t in near(T / 2) + near(T / 2 + 0.5):
+            out.append(pcase(cfg_str(fast=fast), ["wv %s %s 1" % (f64bits(0.0), hx(K)), "wv %s %s 0" % (f64bits(t), hx(D)), "fins"]))
+            out.append(pcase(cfg_str(fast=fast, audio="aac-lc"), ["wv %s %s 1" % (f64bits(0.0), hx(K)), "wa %s %s" % (f64bits(0.0), hx(A)),
+                                                                   "wa %s %s" % (f64bits(t), hx(A)), "fins"]))
+            dist["total_duration_boundary"] += 2
+        # inter-frame gap around 2^32
+        for t in near(T):
+            out.append(pcase(cfg_str(fast=fast), ["wv %s %s 1" % (f64bits(0.0), hx(K)), "wv %s %s 0" % (f64bits(t), hx(D)), "fins"]))
+            out.append(pcase(cfg_str(fast=fast, audio="opus"), ["wv %s %s 1" % (f64bits(0.0), hx(K)), "wa %s %s" % (f64bits(0.0), hx(opus_pkt(rng, 3))),
+                                                                 "wa %s %s" % (f64bits(t), hx(opus_pkt(rng, 3))), "fins"]))
+            dist["gap_boundary"] += 2
+        # |pts - dts| around 2^31
+        H = 2 ** 31 / 90000.0
+        for t in near(H):
+            out.append(pcase(cfg_str(fast=fast), ["wvd %s %s %s 1" % (f64bits(t), f64bits(0.0), hx(K)), "fins"]))
+            out.append(pcase(cfg_str(fast=fast), ["wvd %s %s %s 1" % (f64bits(1.0), f64bits(1.0 + t), hx(K)), "fins"]))
+            dist["cts_boundary"] += 2
+    # timestamps around 2^53 and 2^64 ticks, huge
+    for t in [2 ** 53 / 90000.0, 2 ** 53 / 90000.0 * 1.0000001, 2 ** 63 / 90000.0, 2 ** 64 / 90000.0 * 0.999999, 2 ** 64 / 90000.0, 2 ** 64 / 90000.0 * 1.01, 1e300, 1.7e308]:
+        out.append(pcase(cfg_str(), ["wv %s %s 1" % (f64bits(t), hx(K)), "wv %s %s 0" % (f64bits(t * 1.0000001 + 1), hx(D)), "fins"]))
+        out.append(pcase(cfg_str(), ["wvd %s %s %s 1" % (f64bits(t), f64bits(t), hx(K)), "fins"]))
+        out.append(pcase(cfg_str(audio="aac-lc"), ["wv %s %s 1" % (f64bits(0.0), hx(K)), "wa %s %s" % (f64bits(t), hx(A)), "fins"]))
+        dist["huge_timestamps"] += 3
+    # parameter sets of 65535 / 65536 bytes
+    for n in (65534, 65535, 65536, 70000):
+        key = SC4 + bytes([0x67]) + bytes([0x55]) * (n - 1) + SC4 + bytes([0x68, 0xCE]) + SC4 + bytes([0x65, 0x88])
+        out.append(pcase(cfg_str(), ["wv %s %s 1" % (f64bits(0.0), hx(key)), "fins"]))
+        key = SC4 + bytes([0x67, 0x42, 0x00, 0x1E]) + SC4 + bytes([0x68]) + bytes([0x55]) * (n - 1) + SC4 + bytes([0x65, 0x88])
+        out.append(pcase(cfg_str(), ["wv %s %s 1" % (f64bits(0.0), hx(key)), "fins"]))
+        key = SC4 + bytes([0x40, 1]) + bytes([0x33]) * (n - 2) + SC4 + bytes([0x42, 1, 1, 1]) + SC4 + bytes([0x44, 1]) + SC4 + bytes([0x26, 1, 5])
+        out.append(pcase(cfg_str(codec="h265"), ["wv %s %s 1" % (f64bits(0.0), hx(key)), "fins"]))
+        out.append(fcase("w=640 h=480 via=builder codec=h264 sps=%s pps=68ce3880" % hx(bytes([0x67]) + bytes([0x55]) * (n - 1)), ["finit"]))
+        dist["param_set_boundary"] += 4
+    # dimensions, channels, sample rates
+    for w, h in [(65535, 65535), (65536, 480), (640, 65536), (4294967295, 1)]:
+        for fast in (0, 1):
+            out.append(pcase(cfg_str(w=w, h=h, fast=fast), ["wv %s %s 1" % (f64bits(0.0), hx(K)), "fins"]))
+    for ch in (255, 256, 300, 65535):
+        for audio in ("opus", "aac-lc"):
+            out.append(pcase(cfg_str(audio=audio, ch=ch), ["wv %s %s 1" % (f64bits(0.0), hx(K)), "wa %s %s" % (f64bits(0.0), hx(audio_frame(rng, audio))), "fins"]))
+    for rate in (65535, 65536, 88200, 96000, 4294967295):
+        out.append(pcase(cfg_str(audio="aac-lc", rate=rate), ["wv %s %s 1" % (f64bits(0.0), hx(K)), "wa %s %s" % (f64bits(0.0), hx(A)), "fins"]))
+    dist["dims_channels_rates"] += 21
+    # fragmented: DTS gap around 2^32, |pts-dts| around 2^31, huge dts
+    cfg = "w=640 h=480 ts=90000 fd=2000 sps=6742001e pps=68ce3880"
+    for g in (2 ** 32 - 1, 2 ** 32, 2 ** 32 + 1):
+        out.append(fcase(cfg, ["fw 0 0 aa 1", "fw %d %d bb 0" % (g, g), "fw %d %d cc 0" % (g + 3000, g + 3000), "fflush"]))
+    for g in (2 ** 31 - 1, 2 ** 31, 2 ** 31 + 1):
+        out.append(fcase(cfg, ["fw %d 0 aa 1" % g, "fflush"]))
+        out.append(fcase(cfg, ["fw 0 %d aa 1" % g, "fflush"]))
+    for d in (2 ** 53, 2 ** 63, 2 ** 64 - 1):
+        out.append(fcase(cfg, ["fw %d %d aa 1" % (d, d), "fflush"]))
+    dist["fragmented_boundaries"] += 12
+    # ordinary histories as background
+    out += gen_hist_cases(rng, tier, dist, 200, 15000)
+    for _ in range(100 if tier == "quick" else 8000):
+        out.append(fcase(frag_cfg(rng, dist), frag_ops(rng, dist, maxlen=30, reorder=True)))
+    return out
+
+
 GENERATORS = {"C14": gen_C14, "C01": gen_C01, "C02": gen_C02, "C03": gen_C03, "C15": gen_C15, "C06": gen_C06,
               "C09": gen_C09, "C08": gen_C08, "C18": gen_C18, "C04": gen_C04, "C05": gen_C05,
               "C10": gen_C10, "C11": gen_C11, "C13": gen_C13,
-              "C07": gen_C07, "C19": gen_C19}
+              "C07": gen_C07, "C19": gen_C19, "C16": gen_C16}
 
 RULES = {
     "C14": "exhaustive byte strings up to a length bound over {00,01,02,03,67,FF} through both conversion entry points; "
